@@ -540,6 +540,29 @@ func (fr *Frame) execInvoke(c *ssa.CallCommon, recv Val, args []Val, resT types.
 		all := append([]Val{recv}, args...)
 		return fr.applyIfaceContract(key, sp, c, all, resT, cond, st)
 	}
+	if key == "reflect.Type.Kind" && vc.S.Sort(recv.T) == "Iface" {
+		// Kind() of a descriptor obtained from reflect.TypeOf: the kind under which the value was boxed
+		t := vc.term(st, recv)
+		vc.oblige(fr.top.oname(), "safe:nil-iface-call", fr.siteLabel(), fr.top.props, cond, not(eq(t, "inil")))
+		vc.declareFun("rtype_any", []string{"Int"}, "Any")
+		vc.declareFun("any_kind", []string{"Any"}, "Int")
+		a := vc.define("rt_any", "Any", fmt.Sprintf("(rtype_any (iobj_id %s))", t))
+		k := fmt.Sprintf("(any_kind %s)", a)
+		isDesc := fmt.Sprintf("(and ((_ is iobj) %s) (= (iobj_tag %s) %d))", t, t, reflectTypeTag)
+		for _, f := range []string{
+			fmt.Sprintf("(=> ((_ is astr) %s) (= %s 24))", a, k),
+			fmt.Sprintf("(=> ((_ is abool) %s) (= %s 1))", a, k),
+			fmt.Sprintf("(=> ((_ is aint) %s) (= %s 2))", a, k),
+			// sized numeric kinds: the encoding boxes exactly these (primKind)
+			fmt.Sprintf("(=> ((_ is aprim) %s) (and (= %s (aprim_kind %s)) (or (and (<= 3 %s) (<= %s 11)) (= %s 13) (= %s 14))))", a, k, a, k, k, k, k),
+			fmt.Sprintf("(=> ((_ is alist) %s) (= %s 23))", a, k),
+			fmt.Sprintf("(=> ((_ is adict) %s) (= %s 21))", a, k),
+			fmt.Sprintf("(and (<= 1 %s) (<= %s 26))", k, k),
+		} {
+			vc.fact(implies(and(cond, isDesc), f))
+		}
+		return Val{T: resT, Term: ite(isDesc, k, vc.fresh("kind", "Int"))}
+	}
 	vc.oblige(fr.top.oname(), "safe:nil-iface-call", fr.siteLabel(), fr.top.props, cond, not(fr.ifaceNil(recv, st)))
 	return fr.havocCall(fmt.Sprintf("interface call %s.%s without contract", c.Value.Type(), c.Method.Name()), c, args, resT, cond, st)
 }
@@ -987,6 +1010,9 @@ func (vc *VC) typeTag(t types.Type) string {
 	return name
 }
 
+// tag of the interface values that stand for reflect.Type descriptors obtained from reflect.TypeOf
+const reflectTypeTag = 990001
+
 // Reflect kinds for aprim: the concrete numeric kinds other than int.
 func primKind(t types.Type) (int, bool) {
 	b, ok := t.Underlying().(*types.Basic)
@@ -1183,6 +1209,17 @@ func (fr *Frame) modelExternal(callee *ssa.Function, c *ssa.CallCommon, args []V
 	vc := fr.vc
 	q := qualifiedName(callee)
 	switch q {
+	case "reflect.TypeOf":
+		// reflect.TypeOf(v): nil for a nil interface, otherwise a type descriptor that remembers the value's encoding
+		// (so that Kind() can be read off it); nothing else about the descriptor is modelled
+		if len(args) == 1 && vc.S.Sort(args[0].T) == "Any" {
+			vc.Assumed["model of reflect: TypeOf(v).Kind() is the kind under which the value was boxed (string, bool, int, the sized numeric kinds, slice for []any, map for map[string]any; unknown for other dynamic types)"] = true
+			a := vc.term(st, args[0])
+			vc.declareFun("rtype_id", []string{"Any"}, "Int")
+			vc.declareFun("rtype_any", []string{"Int"}, "Any")
+			vc.fact(fmt.Sprintf("(= (rtype_any (rtype_id %s)) %s)", a, a))
+			return Val{T: resT, Term: ite(eq(a, "anil"), "inil", fmt.Sprintf("(iobj %d (rtype_id %s))", reflectTypeTag, a))}, true
+		}
 	case "gopkg.in/yaml.v3.Unmarshal":
 		// yaml.Unmarshal(in, &x): the decoder is a function of the bytes and of the target type (assumed: yaml.v3 is
 		// deterministic and reads nothing but its input). On error the target may hold anything.
